@@ -195,6 +195,9 @@ fn fault_prefix(r: &mut Rng, link: u64, out: &mut L) {
                     5 => { let i = 2 + r.below(t.len() as u64 - 2) as usize; t[i] = 0; }                              // zero inside the body
                     6 => { let n = r.below(20); t = vec![0, n]; t.extend(r.bytes(n as usize).iter().map(|b| *b as u64)); }   // arbitrary raw link frame
                     7 => { t = vec![0, 1, r.below(256)]; }
+                    // an over-long link frame (length byte 15..80) whose arbitrary body ends in 00 L with L small: read as a whole it is one bad frame;
+                    // rescanned byte by byte its tail looks like the start of a frame that would swallow what follows
+                    8 => { let n = r.range(15, 80); t = vec![0, n]; for _ in 0..n - 2 { t.push(r.range(1, 255)); } t.push(0); t.push(r.range(9, 14)); }
                     _ => {}
                 }
                 if link == 2 && r.chance(1, 10) && t.len() > 1 { let i = 1 + r.below(t.len() as u64 - 1) as usize; t.insert(i, 258); }   // an interrupted read (EINTR) inside the frame
